@@ -176,6 +176,16 @@ def oracle(cfg, actions, sysm, snaps):
             return "foreign-value", "an awaiter received %r which no getter run returned (%r)" % (v, sysm.completed)
     if "data" in sysm.other.__dict__:
         return "per-instance", "a second instance was affected"
+    if cfg["lock"]:
+        # at most one successful computation per cached value: a new one needs a deletion in between
+        dels = len([1 for res in sysm.results for r, op in builtins.zip(res, [None] * len(res)) if False])
+        ndel = 0
+        for res, sc in builtins.zip(sysm.results, cfg["scripts"]):
+            for r, op in builtins.zip(res, sc):
+                if op == "del" and r[0] == "done":
+                    ndel += 1
+        if len(sysm.completed) > ndel + 1:
+            return "computed-too-often", "with a lock the getter completed %d times although only %d deletions happened" % (len(sysm.completed), ndel)
     if cfg["lock"] and not has_del:
         # the getter ran at most once successfully and everybody got that one value
         if len(sysm.completed) > 1:
